@@ -29,6 +29,15 @@ HARNESSES = [
  _r('rsub_none_keep_rt', 'view::reduce(subtract, a, None, None, None, bool keepdims): number or (1,1,1) array decided at run time; keepdims symbolic; shape a per-query constant, all shapes enumerated',
     quick=_shapes(2), thorough=_shapes(3)),
  _r('asub_axis', 'view::accumulate_subtract(a, axis): running fold, source shape; negative axes are the pending finding', quick=[_c(2, **KFA)], thorough=[_c(3, _timeout=3600, **KFA)]),
+ _r('rsub_axes3_init', 'view::reduce(subtract, a, array<int,3> axes (every permutation / sign), None, initial): explicitly named axes reduce the array to a NUMBER (reduce_t::operator num_type); shape a per-query constant',
+    quick=_shapes(2), thorough=_shapes(2) + [_c(2, _timeout=1800)]),
+ _r('rsub_axes3', 'same without initial', quick=[_c(2, SH0=2, SH1=1, SH2=2), _c(2, SH0=2, SH1=2, SH2=2)], thorough=_shapes(2, _timeout=1800)),
+ _r('radd_axis_dtype', 'view::reduce_add(a uint8, axis, dtype=uint32): fold carried in the requested dtype (sums above 255 survive)'),
+ _r('aadd_axis_dtype', 'view::accumulate_add(a uint8, axis, dtype=uint32): running fold carried in the requested dtype'),
+ _r('aadd_axis_dtype8', 'view::accumulate_add(a uint32, axis, dtype=uint8): running fold in the narrower dtype'),
+ _r('radd_axis_dtype8', 'view::reduce_add(a uint32, axis, dtype=uint8)', quick=[], thorough=[_c(2), _c(3, _timeout=3600)]),
+ _r('radd_axis_dtype_init', 'view::reduce_add(a uint8, axis, dtype=uint32, initial)', quick=[], thorough=[_c(2), _c(3, _timeout=3600)]),
+ _r('radd_none_dtype', 'view::reduce_add(a uint8, None, dtype=uint32): a number', quick=_shapes(2)[-1:], thorough=_shapes(2)),
  # ---- thorough tier only (symbolic shapes, measured 125..720 s each at extents <= 2 on the loaded machine)
  _r('rsub_axis_init', 'reduce_subtract(a, axis, None, initial)', quick=[], thorough=[_c(2), _c(3, _timeout=3600)]),
  _r('rsub_axis_keep_rt', 'reduce_subtract(a, axis, None, None, bool keepdims), one query per keepdims value', quick=[], thorough=KEEPS + KEEPS3),
